@@ -1,5 +1,553 @@
 package main
 
-func runCheck(repo, verif, prop, tier string) int   { return 2 }
-func runExpect(repo, verif string) int              { return 2 }
-func runSelftest(repo, verif string, a []string) int { return 2 }
+// Property checks: select the contracts that carry a property, generate and discharge their obligations,
+// compare with the expected obligation list, apply known findings, run bounded stand-ins, write evidence.
+
+import (
+	"encoding/json"
+	"fmt"
+	"os"
+	"path/filepath"
+	"sort"
+	"strconv"
+	"strings"
+	"time"
+)
+
+type checkResult struct {
+	prop       string
+	obls       []*Obligation
+	failed     []*Obligation
+	genErrors  []string
+	functions  []string
+	trustedFns []string
+	standins   []standinResult
+}
+
+func hasProp(ps []string, p string) bool {
+	for _, x := range ps {
+		if x == p {
+			return true
+		}
+	}
+	return false
+}
+
+func contractServes(c *Contract, p string) bool {
+	if hasProp(c.Props, p) {
+		return true
+	}
+	for _, cl := range c.Ensures {
+		if hasProp(cl.Props, p) {
+			return true
+		}
+	}
+	for _, cl := range c.Sites {
+		if hasProp(cl.Props, p) {
+			return true
+		}
+	}
+	for _, cls := range c.LoopInv {
+		for _, cl := range cls {
+			if hasProp(cl.Props, p) {
+				return true
+			}
+		}
+	}
+	return false
+}
+
+// generate builds every obligation that serves property p.
+func (w *World) generate(p string) *checkResult {
+	res := &checkResult{prop: p}
+	var names []string
+	for n := range w.contracts {
+		names = append(names, n)
+	}
+	sort.Strings(names)
+	for _, n := range names {
+		c := w.contracts[n]
+		if c.Assumed || !contractServes(c, p) {
+			continue
+		}
+		short := relName(n, c.Pkg)
+		pk := strings.TrimPrefix(strings.TrimPrefix(c.Pkg, repoMod+"/"), "internal/")
+		fname := pk + "." + short
+		if c.Trusted {
+			res.trustedFns = append(res.trustedFns, fname)
+			if w.funcs[n] == nil {
+				res.failed = append(res.failed, &Obligation{Name: fname + "#bind", Kind: "bind", Func: fname, Props: []string{p}, Status: "unbound", Clause: "trusted contract refers to a function that does not exist", Pos: fmt.Sprintf("%s:%d", c.File, c.Line)})
+			}
+			continue
+		}
+		fn := w.funcs[n]
+		if fn == nil {
+			o := &Obligation{Name: fname + "#bind", Kind: "bind", Func: fname, Props: []string{p}, Status: "unbound", Clause: "contract refers to a function that does not exist (renamed or removed)", Pos: fmt.Sprintf("%s:%d", c.File, c.Line)}
+			res.obls = append(res.obls, o)
+			continue
+		}
+		vc, err := w.verifyFunction(fn, c)
+		if err != nil {
+			o := &Obligation{Name: fname + "#bind", Kind: "bind", Func: fname, Props: []string{p}, Status: "generror", Clause: "contract no longer fits the code: " + err.Error(), Pos: fmt.Sprintf("%s:%d", c.File, c.Line)}
+			res.obls = append(res.obls, o)
+			res.genErrors = append(res.genErrors, err.Error())
+			continue
+		}
+		res.functions = append(res.functions, fname)
+		for _, o := range vc.obls {
+			if o.Kind == "cover" || hasProp(o.Props, p) {
+				res.obls = append(res.obls, o)
+			}
+		}
+	}
+	for _, d := range w.lemmas() {
+		if !hasProp(d.Props, p) {
+			continue
+		}
+		vc, err := w.lemmaVC(d)
+		if err != nil {
+			o := &Obligation{Name: "lemma." + d.Name + "#bind", Kind: "bind", Func: "lemma." + d.Name, Props: []string{p}, Status: "generror", Clause: err.Error(), Pos: fmt.Sprintf("%s:%d", d.File, d.Line)}
+			res.obls = append(res.obls, o)
+			continue
+		}
+		res.obls = append(res.obls, vc.obls...)
+	}
+	sort.SliceStable(res.obls, func(i, j int) bool { return res.obls[i].Name < res.obls[j].Name })
+	return res
+}
+
+func stableName(o *Obligation) (string, bool) {
+	switch o.Kind {
+	case "safety", "cover", "unsupported":
+		return "", false
+	}
+	return o.Name, true
+}
+
+type expectedFile map[string][]string
+
+func loadExpected(verif string) expectedFile {
+	var e expectedFile
+	b, err := os.ReadFile(filepath.Join(verif, "contracts", "expected_obligations.json"))
+	if err != nil {
+		return expectedFile{}
+	}
+	if json.Unmarshal(b, &e) != nil {
+		return expectedFile{}
+	}
+	return e
+}
+
+type knownFinding struct {
+	Prop, Obligation, Witness, Input, Text string
+	Fixed                                  bool
+	Raw                                    string
+}
+
+func loadKnown(verif string) []knownFinding {
+	b, err := os.ReadFile(filepath.Join(verif, "known_findings.txt"))
+	if err != nil {
+		return nil
+	}
+	var out []knownFinding
+	for _, l := range strings.Split(string(b), "\n") {
+		l = strings.TrimSpace(l)
+		if l == "" || strings.HasPrefix(l, "#") {
+			continue
+		}
+		k := knownFinding{Raw: l}
+		if strings.HasPrefix(l, "fixed:") {
+			k.Fixed = true
+			for _, f := range strings.Fields(l) {
+				if strings.HasPrefix(f, "property=") {
+					k.Prop = f[9:]
+				}
+			}
+			out = append(out, k)
+			continue
+		}
+		if !strings.HasPrefix(l, "finding:") {
+			continue
+		}
+		head, text, _ := strings.Cut(l[len("finding:"):], "::")
+		k.Text = strings.TrimSpace(text)
+		// input="..." may contain spaces
+		if i := strings.Index(head, "input=\""); i >= 0 {
+			rest := head[i+7:]
+			if j := strings.Index(rest, "\""); j >= 0 {
+				k.Input = rest[:j]
+				head = head[:i] + rest[j+1:]
+			}
+		}
+		for _, f := range strings.Fields(head) {
+			switch {
+			case strings.HasPrefix(f, "property="):
+				k.Prop = f[9:]
+			case strings.HasPrefix(f, "obligation="):
+				k.Obligation = f[11:]
+			case strings.HasPrefix(f, "witness="):
+				k.Witness = f[8:]
+			}
+		}
+		out = append(out, k)
+	}
+	return out
+}
+
+func propertyIDs(verif string) []string {
+	b, err := os.ReadFile(filepath.Join(verif, "properties.jsonl"))
+	if err != nil {
+		return nil
+	}
+	var ids []string
+	for _, l := range strings.Split(string(b), "\n") {
+		if strings.TrimSpace(l) == "" {
+			continue
+		}
+		var p struct{ ID string `json:"id"` }
+		if json.Unmarshal([]byte(l), &p) == nil && p.ID != "" {
+			ids = append(ids, p.ID)
+		}
+	}
+	return ids
+}
+
+func runExpect(repo, verif string) int {
+	w, err := loadWorld(repo, verif)
+	if err != nil {
+		fmt.Fprintln(os.Stderr, "load:", err)
+		return 3
+	}
+	exp := expectedFile{}
+	for _, p := range propertyIDs(verif) {
+		res := w.generate(p)
+		var names []string
+		for _, o := range res.obls {
+			if n, ok := stableName(o); ok && o.Kind != "bind" {
+				names = append(names, n)
+			}
+		}
+		for _, e := range res.genErrors {
+			fmt.Fprintln(os.Stderr, "generror:", e)
+		}
+		sort.Strings(names)
+		if len(names) > 0 {
+			exp[p] = names
+		}
+	}
+	b, _ := json.MarshalIndent(exp, "", " ")
+	if err := os.WriteFile(filepath.Join(verif, "contracts", "expected_obligations.json"), append(b, '\n'), 0o644); err != nil {
+		fmt.Fprintln(os.Stderr, err)
+		return 3
+	}
+	n := 0
+	for _, v := range exp {
+		n += len(v)
+	}
+	fmt.Printf("expected_obligations.json: %d properties, %d named obligations\n", len(exp), n)
+	return 0
+}
+
+func runCheck(repo, verif, prop, tier string) int {
+	t0 := time.Now()
+	seed := 0
+	if s := os.Getenv("VERIF_SEED"); s != "" {
+		if v, err := strconv.Atoi(s); err == nil {
+			seed = v
+		}
+	}
+	if t := os.Getenv("VERIF_TIER"); t != "" && len(os.Args) < 4 {
+		tier = t
+	}
+	if tier != "thorough" {
+		tier = "quick"
+	}
+	out := verif
+	if outDir != "" {
+		out = outDir
+	}
+	evPath := filepath.Join(out, "evidence", prop+".json")
+	os.MkdirAll(filepath.Dir(evPath), 0o755)
+	os.Remove(evPath)
+	w, err := loadWorld(repo, verif)
+	if err != nil {
+		// the tree does not load (does not compile, or a contract file does not parse): nothing can be decided
+		fmt.Fprintln(os.Stderr, "govc: cannot load:", err)
+		return 3
+	}
+	res := w.generate(prop)
+	work := filepath.Join(out, "work", prop)
+	os.RemoveAll(work)
+	timeout := 10
+	if tier == "thorough" {
+		timeout = 60
+	}
+	discharge(w, res.obls, dischargeOpts{workDir: work, timeoutS: timeout, seed: seed, cross: tier == "thorough", jobs: 16})
+
+	// verdicts
+	expected := loadExpected(verif)[prop]
+	present := map[string]bool{}
+	var failed []*Obligation
+	failed = append(failed, res.failed...)
+	nObl, nDis, nCover, nVacuous := 0, 0, 0, 0
+	byKind := map[string]int{}
+	bySolver := map[string]int{}
+	solverTime := 0.0
+	nontrivial := map[string]bool{}
+	for _, o := range res.obls {
+		if n, ok := stableName(o); ok {
+			present[n] = true
+		}
+		solverTime += o.Seconds
+		if o.Kind == "cover" {
+			nCover++
+			if o.Status == "unsat" {
+				nVacuous++
+				o.Clause = "vacuity: " + o.Clause + " — the assumptions of this function are contradictory or its exit is unreachable"
+				failed = append(failed, o)
+			}
+			continue
+		}
+		nObl++
+		byKind[o.Kind]++
+		if o.Status == "unsat" {
+			nDis++
+			bySolver[o.Solver]++
+			if o.Solver != "syntactic" {
+				nontrivial[o.Name] = true
+			}
+		} else {
+			failed = append(failed, o)
+		}
+	}
+	for _, n := range expected {
+		if !present[n] {
+			o := &Obligation{Name: "gone:" + n, Kind: "gone", Props: []string{prop}, Status: "missing", Clause: "an obligation generated on the reference tree is no longer generated: the code it was about has disappeared or can no longer be bound"}
+			nObl++
+			failed = append(failed, o)
+		}
+	}
+	// bounded stand-ins
+	res.standins = runStandins(w, repo, verif, prop, tier, seed)
+	// known findings
+	known := loadKnown(verif)
+	var violations []*Obligation
+	var knownHit []string
+	for _, o := range failed {
+		matched := false
+		for _, k := range known {
+			if !k.Fixed && k.Prop == prop && k.Obligation == o.Name {
+				matched = true
+				knownHit = append(knownHit, fmt.Sprintf("KNOWN-FINDING: property=%s %s [%s] %s", prop, o.Name, k.Input, k.Text))
+			}
+		}
+		if !matched {
+			violations = append(violations, o)
+		}
+	}
+	for _, s := range res.standins {
+		for _, v := range s.Violations {
+			matched := false
+			for _, k := range known {
+				if !k.Fixed && k.Prop == prop && k.Obligation == s.Name && k.Input == v.Input {
+					matched = true
+					knownHit = append(knownHit, fmt.Sprintf("KNOWN-FINDING: property=%s %s [%s] %s", prop, s.Name, k.Input, k.Text))
+				}
+			}
+			if !matched {
+				violations = append(violations, &Obligation{Name: s.Name, Kind: "bounded", Status: "counterexample", Clause: v.Text, Model: v.Input, Output: v.Output})
+			}
+		}
+		if s.Broken != "" {
+			fmt.Fprintf(os.Stderr, "govc: bounded stand-in %s could not run: %s\n", s.Name, s.Broken)
+		}
+	}
+	for _, l := range knownHit {
+		fmt.Println(l)
+	}
+	// replay + report
+	repDir := filepath.Join(out, "replays", prop)
+	os.MkdirAll(repDir, 0o755)
+	for _, o := range violations {
+		path := filepath.Join(repDir, trunc(mangle(o.Name), 120)+".txt")
+		confirmed := writeReplay(w, repo, verif, prop, o, path)
+		suffix := ""
+		if !confirmed {
+			suffix = " no-failing-input-found"
+		}
+		fmt.Printf("VIOLATION property=%s replay=%s obligation=%s%s\n", prop, path, o.Name, suffix)
+	}
+	// evidence
+	var samples []any
+	cnt := 0
+	for _, o := range res.obls {
+		if o.Kind == "cover" || o.Solver == "syntactic" {
+			continue
+		}
+		if cnt%maxInt(1, len(res.obls)/6) == 0 && len(samples) < 8 {
+			samples = append(samples, map[string]any{"obligation": o.Name, "kind": o.Kind, "position": o.Pos, "clause": trunc(strings.Join(strings.Fields(o.Clause), " "), 300), "status": o.Status, "solver": o.Solver, "seconds": round2(o.Seconds)})
+		}
+		cnt++
+	}
+	if len(samples) == 0 {
+		for _, o := range res.obls {
+			samples = append(samples, map[string]any{"obligation": o.Name, "kind": o.Kind, "status": o.Status})
+			break
+		}
+	}
+	var assumedList []string
+	for k := range w.assumedUsed {
+		assumedList = append(assumedList, k)
+	}
+	sort.Strings(assumedList)
+	cf := map[string]string{}
+	for k, v := range w.contractFilesInRepo {
+		cf[strings.TrimPrefix(k, repoMod+"/")] = v
+	}
+	var standinEv []any
+	for _, s := range res.standins {
+		standinEv = append(standinEv, map[string]any{"name": s.Name, "function": s.Function, "bound": s.Bound, "cases": s.Cases, "violations": len(s.Violations), "label": "bounded (not counted in obligations/discharged)", "seconds": round2(s.Seconds), "broken": s.Broken})
+	}
+	cov := map[string]any{
+		"obligations":              nObl,
+		"discharged":               nDis,
+		"checker_cmd":              fmt.Sprintf("/verif/bin/check %s %s  (govc: go/ssa of /repo -> SMT-LIB; z3-new 5.1.0, cvc5 1.0.3, z3 4.8.12)", prop, tier),
+		"trusted_base":             trustedBase(),
+		"evaluations":              len(res.obls),
+		"distinct_nontrivial":      len(nontrivial),
+		"rule":                     "one case per generated obligation (pre/post/inv/frame/site/lemma/safety/bind) of the functions under contract for this property; non-trivial = needed an SMT solver (not closed by syntactic simplification), distinct by obligation name",
+		"samples":                  samples,
+		"functions_under_contract": res.functions,
+		"trusted_function_contracts": res.trustedFns,
+		"by_kind":                  byKind,
+		"by_solver":                bySolver,
+		"solver_time_s":            round2(solverTime),
+		"bounded_standins":         standinEv,
+		"assumed_contracts_used":   assumedList,
+		"dropped_by_translation":   droppedByTranslation(),
+		"vacuity":                  map[string]any{"cover_queries": nCover, "vacuous": nVacuous, "expected_obligations": len(expected), "missing_expected": countKind(failed, "gone")},
+		"known_findings_reported":  len(knownHit),
+		"contract_files":           cf,
+		"per_solver_timeout_s":     timeout,
+		"cross_solver_agreement":   tier == "thorough",
+		"generator_notes":          w.notes,
+	}
+	ev := map[string]any{
+		"property_id": prop, "tier": tier, "seed": seed, "level": "proof", "coverage": cov,
+		"assumptions": assumptionsList(w, res),
+		"wall_s":      round2(time.Since(t0).Seconds()),
+		"violations":  len(violations),
+	}
+	b, _ := json.MarshalIndent(ev, "", " ")
+	os.WriteFile(evPath, append(b, '\n'), 0o644)
+	if verbose {
+		for _, o := range res.obls {
+			fmt.Fprintf(os.Stderr, "%-8s %-10s %6.2fs %s\n", o.Status, o.Solver, o.Seconds, o.Name)
+		}
+	}
+	fmt.Fprintf(os.Stderr, "govc: %s %s: %d obligations, %d discharged, %d covers, %d stand-ins, %d violations, %d known findings, %.1fs\n",
+		prop, tier, nObl, nDis, nCover, len(res.standins), len(violations), len(knownHit), time.Since(t0).Seconds())
+	if nObl == 0 {
+		fmt.Fprintf(os.Stderr, "govc: no obligations were generated for %s — broken machinery\n", prop)
+		return 2
+	}
+	if len(violations) > 0 {
+		return 1
+	}
+	return 0
+}
+
+func countKind(os_ []*Obligation, k string) int {
+	n := 0
+	for _, o := range os_ {
+		if o.Kind == k {
+			n++
+		}
+	}
+	return n
+}
+
+func maxInt(a, b int) int {
+	if a > b {
+		return a
+	}
+	return b
+}
+
+func round2(f float64) float64 { return float64(int(f*100+0.5)) / 100 }
+
+func trustedBase() []string {
+	return []string{
+		"go/packages + go/ssa (x/tools v0.29.0) build the SSA that the Go compiler's semantics agree with",
+		"govc itself: SSA -> SMT translation (mitigated by the must-fail self-test corpus and cover queries)",
+		"SMT solvers z3 5.1.0 / cvc5 1.0.3 / z3 4.8.12 (thorough tier: two solvers must agree when both answer)",
+		"assumed contracts of library and dependency functions under /verif/contracts/assumed (listed in assumed_contracts_used)",
+		"Go memory model for mutex-protected data; Lock/Unlock treated as atomic-action brackets",
+		"operating system semantics behind os/exec, signals, sockets, rename(2)",
+	}
+}
+
+func droppedByTranslation() []string {
+	return []string{
+		"machine-integer wrap-around (integers are mathematical)",
+		"in-place append aliasing (append copies into a fresh backing array)",
+		"goroutine scheduling other than through declared interference (rely) predicates",
+		"channel contents (receive yields an unconstrained value)",
+		"panics inside trusted library code; recover blocks",
+		"float values (reals, operations unconstrained), struct padding, unsafe, finalizers",
+		"interior pointers that escape as first-class values become opaque references",
+		"termination (partial correctness only)",
+	}
+}
+
+func assumptionsList(w *World, res *checkResult) []string {
+	out := []string{
+		"arithmetic is mathematical, not 64-bit",
+		"every callee is represented by its contract only; callees without contract havoc all modelled state",
+		"assumed (trusted) contracts for external functions: see coverage.assumed_contracts_used",
+	}
+	for _, t := range res.trustedFns {
+		out = append(out, "trusted contract (body not verified): "+t)
+	}
+	return out
+}
+
+// ---------- replay ----------
+
+func writeReplay(w *World, repo, verif, prop string, o *Obligation, path string) bool {
+	var b strings.Builder
+	fmt.Fprintf(&b, "property:   %s\nobligation: %s\nkind:       %s\nfunction:   %s\nposition:   %s\nclause:     %s\nstatus:     %s (solver %s)\n\n", prop, o.Name, o.Kind, o.Func, o.Pos, o.Clause, o.Status, o.Solver)
+	if o.Output != "" {
+		fmt.Fprintf(&b, "solver transcript:\n%s\n\n", o.Output)
+	}
+	confirmed := false
+	if o.Kind == "bounded" {
+		fmt.Fprintf(&b, "failing input of the real function (bounded stand-in):\n%s\n", o.Model)
+		confirmed = true
+	} else if len(o.ModelVal) > 0 {
+		b.WriteString("counterexample (projected to parameters, loop variables and quantifier witnesses):\n")
+		var ks []string
+		for k := range o.ModelVal {
+			if strings.HasPrefix(k, "p_") || strings.HasPrefix(k, "lphi") || strings.HasPrefix(k, "fv_") || strings.HasPrefix(k, "l_") {
+				ks = append(ks, k)
+			}
+		}
+		sort.Strings(ks)
+		for _, k := range ks {
+			fmt.Fprintf(&b, "  %s = %s\n", k, trunc(o.ModelVal[k], 400))
+		}
+		out, ok := replayOnRealCode(w, repo, verif, prop, o)
+		if out != "" {
+			fmt.Fprintf(&b, "\nreplay on the real code:\n%s\n", out)
+		}
+		confirmed = ok
+		if o.Model != "" {
+			fmt.Fprintf(&b, "\nfull model:\n%s\n", trunc(o.Model, 20000))
+		}
+	}
+	if !confirmed {
+		b.WriteString("\nno-failing-input-found: the verifier's answer could not be replayed as a concrete failing input on the real code.\n")
+	}
+	os.WriteFile(path, []byte(b.String()), 0o644)
+	return confirmed
+}
